@@ -4,6 +4,8 @@
 //!   vhraft suite      <report.json>                   openraft's storage conformance suite
 use openraft::storage::RaftStorage;
 use openraft::{CommittedLeaderId, Entry, EntryPayload, LogId, RaftLogReader, RaftSnapshotBuilder, Vote};
+#[allow(unused_imports)]
+use openraft::RaftLogReader as _;
 use serde_json::{json, Value as J};
 use std::collections::BTreeMap;
 use varpulis_cluster::connector_config::ClusterConnector;
@@ -13,6 +15,8 @@ use varpulis_cluster::raft::{ClusterCommand, TypeConfig};
 use varpulis_cluster::worker::WorkerCapacity;
 
 mod sync;
+#[cfg(feature = "persistent")]
+mod rocks;
 
 fn read_cases(p: &str) -> Vec<J> {
     std::fs::read_to_string(p).unwrap().lines().filter(|l| !l.trim().is_empty()).map(|l| serde_json::from_str(l).unwrap()).collect()
@@ -91,12 +95,19 @@ pub fn entry(term: u64, index: u64, c: Option<&J>) -> Entry<TypeConfig> {
 }
 
 // ---------------------------------------------------------------- stores
-pub trait Store: RaftStorage<TypeConfig> + Sized { fn fresh(dir: &std::path::Path) -> Self; fn state(&self) -> CoordinatorState; const NAME: &'static str; }
-impl Store for MemStore { fn fresh(_: &std::path::Path) -> Self { MemStore::new() } fn state(&self) -> CoordinatorState { self.state.clone() } const NAME: &'static str = "MemStore"; }
+pub trait Store: RaftStorage<TypeConfig> + Sized { fn fresh(dir: &std::path::Path) -> Self; fn direct_state(&self) -> Option<CoordinatorState>; const NAME: &'static str; }
+/// the store's state machine: the public field where there is one, else what the store puts into a snapshot it builds
+async fn state_of<S: Store>(s: &mut S) -> CoordinatorState {
+    if let Some(st) = s.direct_state() { return st; }
+    let snap = s.get_snapshot_builder().await.build_snapshot().await.unwrap();
+    let v: J = serde_json::from_slice(&snap.snapshot.into_inner()).unwrap();
+    serde_json::from_value(v["state"].clone()).unwrap()
+}
+impl Store for MemStore { fn fresh(_: &std::path::Path) -> Self { MemStore::new() } fn direct_state(&self) -> Option<CoordinatorState> { Some(self.state.clone()) } const NAME: &'static str = "MemStore"; }
 #[cfg(feature = "persistent")]
 impl Store for varpulis_cluster::raft::persistent_store::RocksStore {
     fn fresh(dir: &std::path::Path) -> Self { varpulis_cluster::raft::persistent_store::RocksStore::open(dir.to_str().unwrap()).expect("open") }
-    fn state(&self) -> CoordinatorState { self.state.clone() }
+    fn direct_state(&self) -> Option<CoordinatorState> { None }
     const NAME: &'static str = "RocksStore";
 }
 
@@ -124,13 +135,14 @@ async fn sm_case<S: Store>(c: &J, rep: &mut Report) {
     c2.install_snapshot(&snapshot.meta, snapshot.snapshot).await.unwrap();
     let applied_after_install = c2.last_applied_state().await.unwrap().0;
     if snap < n { c2.apply_to_state_machine(&entries[snap..]).await.unwrap(); }
-    let (sa, sb, sc) = (canon(&a.state()), canon(&b.state()), canon(&c2.state()));
+    let (sta, stb, stc) = (state_of(&mut a).await, state_of(&mut b).await, state_of(&mut c2).await);
+    let (sa, sb, sc) = (canon(&sta), canon(&stb), canon(&stc));
     rep.case(&small, sa != canon(&CoordinatorState::default()));
     if sa != sb { rep.violation(&["C35"], "applying the log in two batches gives another state than entry by entry", &small, sa.clone(), sb); }
     if sa != sc { rep.violation(&["C35"], "snapshot + rest of the log gives another state than the whole log", &small, sa.clone(), sc); }
     let want_applied = if snap == 0 { None } else { Some(lid(1, snap as u64)) };
     if applied_after_install != want_applied { rep.violation(&["C35"], "installed snapshot reports another applied position", &small, json!(format!("{want_applied:?}")), json!(format!("{applied_after_install:?}"))); }
-    let pj = project(&a.state());
+    let pj = project(&sta);
     if pj != c["final"] { rep.violation(&["C35"], "replicated state differs from the specification's fold of the log", &small, c["final"].clone(), pj); }
     let la = a.last_applied_state().await.unwrap().0;
     if la != (if n == 0 { None } else { Some(lid(1, n as u64)) }) { rep.violation(&["C35"], "last applied position wrong", &small, json!(n), json!(format!("{la:?}"))); }
@@ -204,6 +216,8 @@ fn main() {
             rep.write(&args[3]);
         }
         "suite" => suite(&args[2]),
+        #[cfg(feature = "persistent")]
+        "rocks-replay" => rocks::replay(&rt, &args[2], &args[3]),
         "sync-replay" => sync::replay(&rt, &args[2], &args[3]),
         c => panic!("unknown command {c}"),
     }
